@@ -26,7 +26,7 @@ CLAIMED = {
    technique="Lean 4 proof (bit-packing lemmas + omega) + kernel decide over the tabulated version table + correspondence",
    design="5/C04"),
  'C05': dict(
-   text="Lean theorems: layout_rt for EVERY field-list layout (unbounded, nested arrays, real custom codecs proved to satisfy the codec law) — write succeeds on well-typed values, read returns them and consumes the payload exactly, strict prefixes rejected; object-level packet_rt; over tables regenerated from the live get_definition/get_packets/get_id on all known versions (kernel decide): every supported version x registered class has an id and a layout or hand codec, every generated layout is well-formed and round-trips, hand-written set is exactly the expected one; hand-written codecs (Map, PlayerListItem, SpawnObject, CombatEvent, FacePlayer, PluginResponse) modelled with version flags and proved to round-trip for ALL flag combinations up to an explicit normalise function. Correspondence: real write_fields/read/repr/id for supported versions x classes x values vs the model, hand codecs vs their models, random user-defined field lists.",
+   text="Lean theorems: layout_rt for EVERY field-list layout (unbounded, nested arrays, real custom codecs proved to satisfy the codec law) — write succeeds on well-typed values, read returns them and consumes the payload exactly, strict prefixes rejected; object-level packet_rt; over tables regenerated from the live get_definition/get_packets/get_id on all known versions (kernel decide): every supported version x registered class has an id and a layout or hand codec, every generated layout is well-formed and round-trips, hand-written set is exactly the expected one; hand-written codecs (Map, PlayerListItem, SpawnObject, CombatEvent, FacePlayer, PluginResponse) modelled with version flags and proved to round-trip for ALL flag combinations up to an explicit normalise function. Correspondence: real write_fields/read/repr/id for supported versions x classes x values vs the model, hand codecs vs their models, random user-defined field lists, class-level definitions reused across versions. Composition (Props/C05Stream): a list of typed packets written as frames and read back through read_packet under any threshold, lawful zlib, cipher pair and segmentation returns the typed values.",
    note="repr is exercised on the implementation only; NBT fields (JoinGame/Respawn >= 718) are pynbt's: real round trip exercised, not modelled; Map offsets are taken in 0..127 (reader Byte vs writer UnsignedByte asymmetry documented, not alarmed).",
    technique="Lean 4 proof (generic layout round trip + per-class flag-parametric round trips) + kernel decision over tabulated layouts + correspondence",
    design="5/C05"),
@@ -51,7 +51,7 @@ CLAIMED = {
    technique="Lean 4 proof (decision logic, case analysis) + correspondence on an in-process sequential network",
    design="5/C09"),
  'C10': dict(
-   text="Lean model of LoginReactor.react with explicit framing state (cipher on/off, threshold, forced vs queued writes, RSA and JSON-text extraction as parameters); theorems for ALL step lists (any order/length of server events and loop write phases): the encryption response is the last plaintext frame, carries rsa(secret)/rsa(token) (RSA law recovers them) and everything written later is encrypted; the announced threshold applies to every later frame; plugin requests are each answered once, in order, unsuccessfully absent a handler; success enters play; a disconnect always records LoginDisconnect(msg) or VersionMismatch(ver) exactly per the two 'Outdated' patterns and stops processing; join called iff online id and token, with the verification hash. Correspondence on the sequential simnet: independent server with textbook RSA and pure-Python AES-CFB8 over versions either side of 385/391/707; the string passed to join is also checked against the Lean SHA-1 hash (C17 link).",
+   text="Lean model of LoginReactor.react with explicit framing state (cipher on/off, threshold, forced vs queued writes, RSA and JSON-text extraction as parameters); theorems for ALL step lists (any order/length of server events and loop write phases): the encryption response is the last plaintext frame, carries rsa(secret)/rsa(token) (RSA law recovers them) and everything written later is encrypted; the announced threshold applies to every later frame; plugin requests are each answered once, in order, unsuccessfully absent a handler; success enters play; a disconnect always records LoginDisconnect(msg) or VersionMismatch(ver) exactly per the two 'Outdated' patterns and stops processing; join called iff online id and token, with the verification hash. Correspondence on the sequential simnet: independent server with textbook RSA and pure-Python AES-CFB8 over versions either side of 385/391/707; the string passed to join is also checked against the Lean SHA-1 hash (C17 link); two logins on one Connection (handler reconnect) must not share framing state. Byte level (Props/C10Wire): the bytes handed to the socket are plaintext frames up to and including the encryption response and AES-CFB8 of the rest, an independent server recovers the outbox and the secret; driver loginwire.run is compared with the raw bytes the real client sent.",
    note="RSA is a parameter with dec(enc m)=m; JSON parsing and the regex engine are CPython's (the regex is mirrored by an explicit recogniser proved equivalent to a declarative reading). Forced/queued is not observable at the server and is dropped from the comparison; ids of the 1.13 snapshots 385..390 come from pyCraft's own tables.",
    technique="Lean 4 proof (invariants over arbitrary step lists) + correspondence on sequential simnet with an independent crypto peer",
    design="5/C10"),
@@ -61,7 +61,7 @@ CLAIMED = {
    technique="Lean 4 proof (loop with measure, cap-independence) + correspondence on sequential simnet",
    design="5/C11"),
  'C12': dict(
-   text="Lean transition system of the write path (user threads: queued/forced writes, graceful/immediate disconnect; networking thread's write loop with caps as parameters) at the granularity of lock, queue, socket-send, interrupt and select operations; invariant proved for EVERY program set and EVERY schedule: only the lock holder is inside a frame, the wire is whole duplicate-free frames plus at most the holder's open length prefix, issued = sent + in-flight + queued + failed (disjoint), per-thread FIFO of queued packets, a graceful disconnect flushes everything queued at its lock acquisition then closes, nothing is sent after the close. Trace refinement: the real code runs on real threads under a baton scheduler yielding at exactly those operations; the executed schedule replayed through the model must give the identical event log, wire and final state (500 random walks quick; systematic enumeration with preemption bound + 6000 walks thorough), plain/compressed/encrypted transports; oracle parses the server-side byte stream independently.",
+   text="Lean transition system of the write path (user threads: queued/forced writes, graceful/immediate disconnect; networking thread's write loop with caps as parameters) at the granularity of lock, queue, socket-send, interrupt and select operations; invariant proved for EVERY program set and EVERY schedule: only the lock holder is inside a frame, the wire is whole duplicate-free frames plus at most the holder's open length prefix, issued = sent + in-flight + queued + failed (disjoint), per-thread FIFO of queued packets, a graceful disconnect flushes everything queued at its lock acquisition then closes, nothing is sent after the close. Trace refinement: the real code runs on real threads under a baton scheduler yielding at exactly those operations; the executed schedule replayed through the model must give the identical event log, wire and final state (500 random walks quick; systematic enumeration with preemption bound + 6000 walks thorough), plain/compressed/encrypted transports; oracle parses the server-side byte stream independently; bulk (>300 queued) and re-entrant outgoing-listener scenarios. Byte level (Props/C12Bytes = C12 o C01 o C18): for all programs, schedules, thresholds, lawful zlib, cipher and read segmentation the peer's read_packet decodes from the wire BYTES exactly the packets sent, once each, per-thread FIFO; each packet's two send arguments are compared with the Lean frameSends.",
    note="Atomicity of deque/attribute operations is the GIL's; preemption between yield points assumed unobservable (all shared state is reached through them); the cipher-swap window in LoginReactor is not claimed; the liveness half of the final-state theorem is _partial.",
    technique="Lean 4 proof (inductive invariant over all schedules) + trace refinement on a deterministic scheduler",
    design="5/C12"),
